@@ -248,7 +248,7 @@ type Scenario struct {
 	Reload     bool `json:"concurrent_engine_load"`
 	Metrics    bool `json:"concurrent_metrics_reader"`
 	Vacuum     bool `json:"vacuum_exercise"`
-	Concurrent bool `json:"concurrency_quota"` // quota strategy "concurrent" (in-flight bound) instead of a fixed window
+	Concurrent bool `json:"concurrency_quota"`            // quota strategy "concurrent" (in-flight bound) instead of a fixed window
 	Groups     int  `json:"quota_groups,omitempty"`       // fixed window grouped by a header: requests spread over this many groups
 	UDM        bool `json:"user_defined_gauge,omitempty"` // a UserDefinedMetrics gauge processor in front of the limiter
 	Queue      bool `json:"queue_flow,omitempty"`         // requests wait in a Queue processor for a slot of a concurrent quota (real clock)
@@ -258,9 +258,17 @@ type Scenario struct {
 	// routing level (routing.go): transactions through processRequest/processResponse of a real
 	// HandlingDataManager while its admin handlers run
 	Routing   bool `json:"routing_level,omitempty"`
-	Reloads   int  `json:"admin_reloads,omitempty"`     // POST /load_flows this many times while transactions run
+	Reloads   int  `json:"admin_reloads,omitempty"`            // POST /load_flows this many times while transactions run
+	Reloaders int  `json:"concurrent_reloaders,omitempty"`     // ... by each of this many goroutines at once (0 = 1)
 	Conform   bool `json:"record_conformance_trace,omitempty"` // record the instrumented lock/access events (conform.go)
-	Validates int  `json:"admin_validations,omitempty"` // two goroutines POST /validate_flows this many times each
+	Validates int  `json:"admin_validations,omitempty"`        // two goroutines POST /validate_flows this many times each
+	// filter-tree shapes (shapes.go): Wild flows on box.com/*, Mid flows on box.com/a/*, one flow on each of
+	// Exact URLs box.com/a/u<k>; SamplePct = sample_percentage of the Wild flows
+	Shape     string  `json:"shape,omitempty"`
+	Wild      int     `json:"wildcard_flows,omitempty"`
+	Mid       int     `json:"mid_wildcard_flows,omitempty"`
+	Exact     int     `json:"exact_urls,omitempty"`
+	SamplePct float64 `json:"sample_percentage,omitempty"`
 }
 
 type ChildResult struct {
@@ -272,6 +280,15 @@ type ChildResult struct {
 	Transactions int64 `json:"transactions,omitempty"`
 	ReloadsDone  int64 `json:"reloads_done,omitempty"`
 	AdminErrors  int64 `json:"admin_errors,omitempty"`
+	// shapes only
+	SetupError      string             `json:"setup_error,omitempty"`
+	Panics          int64              `json:"panics,omitempty"`
+	PanicExample    string             `json:"panic_example,omitempty"`
+	Foreign         int64              `json:"foreign_flow_executions,omitempty"`
+	ForeignExamples []string           `json:"foreign_examples,omitempty"`
+	Invocations     map[string]int64   `json:"flow_invocations,omitempty"`
+	RefEarly        [][]string         `json:"reference_early_responses,omitempty"` // per URL, one transaction at a time
+	RefInc          []map[string]int64 `json:"reference_invocation_increments,omitempty"`
 }
 
 func child() {
@@ -289,6 +306,10 @@ func child() {
 	}
 	if sc.Policy {
 		policyChild(sc, repo)
+		return
+	}
+	if sc.Shape != "" {
+		shapeChild(sc, repo)
 		return
 	}
 	wd, _ := os.Getwd()
@@ -814,17 +835,40 @@ func main() {
 		"(G goroutines x R request/response pairs through one Limiter flow with quota max K in a single window, " +
 		"optionally with a concurrent metrics reader, a concurrent engine load, the map vacuum, a header-grouped " +
 		"window whose group counters are read for metrics, a user-defined gauge, a queue flow on a concurrent quota, " +
-		"policy-mode remedies, admin reloads / validations at routing level), or one schedule of overlapping " +
-		"executions of a real flow (txctx2); " +
-		"non-trivial = more transactions than quota slots and at least 2 goroutines / a schedule with overlapping executions")
+		"policy-mode remedies, admin reloads / validations at routing level, filter-tree shapes = 1-7 flows on a wildcard node + " +
+		"flows on a deeper wildcard + one flow per exact URL with transactions on different URLs at once, sampled flows), " +
+		"or one schedule of overlapping executions of a real flow (txctx2), or one schedule of look-ups and uses of the " +
+		"selected flows by 2-3 transactions on a real filter tree (selection); " +
+		"non-trivial = more transactions than quota slots and at least 2 goroutines / a schedule with overlapping executions / " +
+		"a schedule in which a look-up falls between another transaction's look-up and its use")
 	repo := os.Getenv("VERIF_REPO")
 	if repo == "" {
 		repo = "/repo"
 	}
-	sites := loadSites(filepath.Join(o.Dir, "facts.json"))
+	// the translator's facts of THIS run (props/C18.json pre_build writes them next to the ordinary
+	// run directory; a --replay run has a directory of its own)
+	factsPath := filepath.Join(o.Dir, "facts.json")
+	if _, err := os.Stat(factsPath); err != nil {
+		if b := os.Getenv("VERIF_BUILD"); b != "" {
+			factsPath = filepath.Join(b, "run", "C18", "facts.json")
+		}
+	}
+	sites := loadSites(factsPath)
 	var scenarios []Scenario
 	var k Scenario
-	if _, ok := o.ReplayCase(&k); ok {
+	var rawCase json.RawMessage
+	if suite, ok := o.ReplayCase(&rawCase); ok && suite == "selection" {
+		var sk selCase
+		if err := json.Unmarshal(rawCase, &sk); err != nil {
+			panic(err)
+		}
+		selectionReplay(o, repo, sk)
+		o.Finish()
+		return
+	} else if ok {
+		if err := json.Unmarshal(rawCase, &k); err != nil {
+			panic(err)
+		}
 		scenarios = []Scenario{k}
 	} else {
 		scenarios = []Scenario{
@@ -850,6 +894,9 @@ func main() {
 			// a queue flow on a concurrent quota (queue goroutine vs transactions)           [F-C18n]
 			{Goroutines: 6, PerG: 4, Max: 3, Queue: true},
 		}
+		// filter-tree shapes in which the look-up itself can share state between transactions
+		// (several flows on a wildcard node + exact URLs below it, sampled flows): shapes.go
+		scenarios = append(scenarios, shapeTable...)
 		for i := 0; i < o.Scale(1, 12, 6); i++ {
 			scenarios = append(scenarios, Scenario{Goroutines: o.Rng.Range(2, 12), PerG: o.Rng.Range(5, 40),
 				Max: o.Rng.Range(1, 60), Metrics: o.Rng.Bool(), Reload: o.Rng.Bool(), Vacuum: o.Rng.Bool()})
@@ -865,6 +912,11 @@ func main() {
 			if i%4 == 1 {
 				scenarios = append(scenarios, Scenario{Goroutines: o.Rng.Range(2, 8), PerG: o.Rng.Range(2, 5),
 					Max: o.Rng.Range(1, 4), Queue: true})
+			}
+			if o.Tier != "quick" { // random filter-tree shapes (the quick tier runs shapeTable only)
+				scenarios = append(scenarios, Scenario{Shape: fmt.Sprintf("random%d", i), Goroutines: o.Rng.Range(2, 10), PerG: o.Rng.Range(10, 60),
+					Wild: o.Rng.Range(1, 9), Mid: o.Rng.Range(0, 3), Exact: o.Rng.Range(2, 5),
+					SamplePct: c.Pick(o.Rng, []float64{0, 0, 0, 10, 50, 90})})
 			}
 			if i%2 == 1 || o.Tier == "search" {
 				scenarios = append(scenarios, Scenario{Goroutines: o.Rng.Range(2, 8), PerG: o.Rng.Range(5, 30),
@@ -899,7 +951,10 @@ func main() {
 		isolationSuite(o, repo)
 	}
 	if o.Replay == "" {
-		sp := staticPairs(filepath.Join(o.Dir, "facts.json"))
+		selectionSuite(o, repo)
+	}
+	if o.Replay == "" {
+		sp := staticPairs(factsPath)
 		fields := make([]string, 0, len(sp))
 		for f := range sp {
 			fields = append(fields, f)
@@ -917,29 +972,65 @@ func main() {
 		}
 	}
 	self, _ := os.Executable()
-	for i, sc := range scenarios {
-		wd := filepath.Join(".", fmt.Sprintf("sc%d", i))
-		os.RemoveAll(wd)
-		os.MkdirAll(wd, 0o755)
-		scj, _ := json.Marshal(sc)
-		abs, _ := filepath.Abs(wd)
-		var outb []byte
-		var err error
-		for attempt := 0; attempt < 4; attempt++ {
-			cmd := exec.Command(self)
-			cmd.Dir = wd
-			env := os.Environ()
-			if sc.Routing || sc.Policy {
-				env = routingEnv(abs, repo) // fresh ports on every attempt
-			}
-			cmd.Env = append(env, "C18_CHILD=1", "C18_SCENARIO="+string(scj),
-				"GORACE=log_path="+filepath.Join(abs, "race")+" halt_on_error=0 history_size=3",
-				"LUNAR_PROXY_LOG_LEVEL=error", "LOG_LEVEL=error")
-			outb, err = cmd.Output()
-			if ee, ok := err.(*exec.ExitError); !ok || ee.ExitCode() != portBusyExit {
-				break // anything but "a stub port was taken in the meantime"
-			}
+	// the children are independent processes: a few of them run at the same time (the verdicts are
+	// then read in scenario order). A scenario that measures against the real clock (queue flow)
+	// tolerates the extra load: its TTL is 20 s.
+	type childOut struct {
+		outb []byte
+		err  error
+		abs  string
+	}
+	outs := make([]childOut, len(scenarios))
+	{
+		workers := 3
+		if v := os.Getenv("C18_WORKERS"); v != "" {
+			fmt.Sscanf(v, "%d", &workers)
 		}
+		if workers < 1 || o.Replay != "" {
+			workers = 1
+		}
+		var wg sync.WaitGroup
+		next := make(chan int)
+		for w := 0; w < workers; w++ {
+			wg.Add(1)
+			go func() {
+				defer wg.Done()
+				for i := range next {
+					sc := scenarios[i]
+					wd := filepath.Join(".", fmt.Sprintf("sc%d", i))
+					os.RemoveAll(wd)
+					os.MkdirAll(wd, 0o755)
+					scj, _ := json.Marshal(sc)
+					abs, _ := filepath.Abs(wd)
+					var outb []byte
+					var err error
+					for attempt := 0; attempt < 4; attempt++ {
+						cmd := exec.Command(self)
+						cmd.Dir = wd
+						env := os.Environ()
+						if sc.Routing || sc.Policy {
+							env = routingEnv(abs, repo) // fresh ports on every attempt
+						}
+						cmd.Env = append(env, "C18_CHILD=1", "C18_SCENARIO="+string(scj),
+							"GORACE=log_path="+filepath.Join(abs, "race")+" halt_on_error=0 history_size=3",
+							"LUNAR_PROXY_LOG_LEVEL=error", "LOG_LEVEL=error")
+						outb, err = cmd.Output()
+						if ee, ok := err.(*exec.ExitError); !ok || ee.ExitCode() != portBusyExit {
+							break // anything but "a stub port was taken in the meantime"
+						}
+					}
+					outs[i] = childOut{outb, err, abs}
+				}
+			}()
+		}
+		for i := range scenarios {
+			next <- i
+		}
+		close(next)
+		wg.Wait()
+	}
+	for i, sc := range scenarios {
+		outb, err, abs := outs[i].outb, outs[i].err, outs[i].abs
 		var res ChildResult
 		okRes := false
 		for _, l := range strings.Split(string(outb), "\n") {
@@ -970,7 +1061,9 @@ func main() {
 		if int64(total) < want {
 			want = int64(total)
 		}
-		if sc.Routing {
+		if sc.Shape != "" {
+			shapeCheck(o, i, sc, res)
+		} else if sc.Routing {
 			// Every reload is one step of the serial order and builds a fresh engine whose quota
 			// counters start from zero: in a one-at-a-time order with r reloads between min(total,max)
 			// and min(total,(r+1)*max) requests are admitted. Admin calls are expected to succeed
@@ -980,7 +1073,7 @@ func main() {
 				hi = int64(total)
 			}
 			if res.Admitted < want || res.Admitted > hi || res.Errors != 0 || res.AdminErrors != 0 ||
-				res.Admitted+res.Refused+res.Errors != int64(total) || res.ReloadsDone != int64(sc.Reloads) {
+				res.Admitted+res.Refused+res.Errors != int64(total) || res.ReloadsDone != int64(sc.Reloads*max(1, sc.Reloaders)) {
 				o.Hit(c.Hit{Suite: "stress", Index: i, Signature: "not-serializable:routing-reload",
 					Demanded: fmt.Sprintf("%d <= admitted <= %d (some serial order of %d transactions and %d reloads), every transaction answered, no failed transaction or admin call",
 						want, hi, total, sc.Reloads),
